@@ -58,9 +58,40 @@ def cancel_case(draw):
     return c
 
 
+@st.composite
+def staged_case(draw):
+    """Motif: a task that asks for two computed inputs from the provideValue of a first one, in an incremental
+    build in which one of them has to re-run and the other has not; every engine step of that build is a cancel
+    point, and the OTHER one's leaf changes before the next build."""
+    keys = draw(em.key_pool(7))
+    x, la, lb, A, B, T, U = keys
+    mk = lambda k, ins: {"key": k, "leaf": False, "prefix": draw(em._PREFIX), "ver": 0, "mod": draw(em._MODS),
+                        "salt": draw(st.integers(0, 7)), "force": False, "art": draw(st.booleans()), "ins": ins, "discs": []}
+    one = lambda k, src=-1: {"key": k, "mode": "r", "w": draw(st.integers(1, 5)), "src": src, "mod": 1, "rem": 0}
+    staged = [one(B, 0), one(A, 0)]
+    if draw(st.booleans()):
+        staged.reverse()
+    rules = [em.leaf_rule(x, draw(em._PREFIX)), em.leaf_rule(la, draw(em._PREFIX)), em.leaf_rule(lb, draw(em._PREFIX)),
+             mk(A, [one(la)]), mk(B, [one(lb)]), mk(T, [one(x)] + staged)]
+    root = T
+    # U asks for A and B directly: building U first leaves A and B with recorded dependencies while T has never
+    # been built, so that in the victim build T is RUNNING while A and B are still being scanned
+    rules.append(mk(U, [one(A), one(B)]))
+    first = draw(st.sampled_from([U, U, T]))
+    mode = lambda: draw(st.sampled_from(["sync", "sync", "idle"]))
+    ops = [{"op": "build", "key": first, "mode": mode(), "choices": []},
+           {"op": "set", "key": draw(st.sampled_from([la, lb])), "v": draw(st.integers(2, 5))},
+           {"op": "build", "key": root, "mode": mode(), "choices": []},
+           {"op": "set", "key": draw(st.sampled_from([la, lb, x])), "v": draw(st.integers(6, 9))},
+           {"op": "build", "key": root, "mode": mode(), "choices": []},
+           {"op": "build", "key": root, "mode": mode(), "choices": []}]
+    return {"db": draw(st.booleans()), "front": "cxx", "rules": rules, "init": {x: 1, la: 1, lb: 1}, "ops": ops,
+            "victim": 2, "offset": draw(st.integers(0, 1000)), "motif": "staged-requests"}
+
+
 def strategy(tier):
     _TIER["v"] = tier
-    return cancel_case()
+    return st.integers(0, 3).flatmap(lambda n: staged_case() if n == 2 else cancel_case())
 
 
 def run(case, ctx):
@@ -240,6 +271,8 @@ def run_case(case, ctx, verbose=False):
         classes.append("cancel-with-task-in-progress+later-success")
     if case.get("db"):
         classes.append("db")
+    if case.get("motif"):
+        classes.append("motif:" + case["motif"])
     if capped:
         classes.append("cap-hit")
     if known_hits:
